@@ -367,8 +367,14 @@ func isXMLName(s string) bool {
 	}
 	ok := s != "" && !strings.ContainsAny(s, " \t\r\n<>/=\"'&:") && utf8.ValidString(s)
 	if ok {
+		// the reader must see exactly one element with that name carrying one
+		// attribute with that name ("!" or "?x" would otherwise pass as a
+		// directive or a processing instruction)
 		d := xml.NewDecoder(strings.NewReader("<" + s + " " + s + "=\"\"/>"))
-		for {
+		tok, err := d.Token()
+		se, isStart := tok.(xml.StartElement)
+		ok = err == nil && isStart && se.Name.Space == "" && se.Name.Local == s && len(se.Attr) == 1 && se.Attr[0].Name.Space == "" && se.Attr[0].Name.Local == s
+		for ok {
 			_, err := d.Token()
 			if err != nil {
 				ok = err == io.EOF
